@@ -711,11 +711,12 @@ func c14GenC(r *core.Rng, idx int) c14Case {
 	top := c14Top(m)
 	// fixed, well-known targets
 	top.Add(
-		yang.S("leaf", "dv-leaf", yang.S("type", "int32"), yang.S("units", "ms"), yang.S("default", "5"), yang.S("must", "1 = 1")),
+		yang.S("leaf", "dv-leaf", yang.S("type", "int32"), yang.S("units", "ms"), yang.S("default", "5"), yang.S("must", "1 = 1"),
+			yang.S("must", "3 = 3", yang.S("error-message", "third is third")), yang.S("must", "4 = 4")),
 		yang.S("leaf", "dv-bare", yang.S("type", "string")),
 		yang.S("leaf-list", "dv-ll", yang.S("type", "string"), yang.S("min-elements", "1"), yang.S("max-elements", "4")),
 		yang.S("list", "dv-list", yang.S("key", "k"), yang.S("leaf", "k", yang.S("type", "string")), yang.S("leaf", "a", yang.S("type", "string")),
-			yang.S("leaf", "b", yang.S("type", "string")), yang.S("unique", "a")),
+			yang.S("leaf", "b", yang.S("type", "string")), yang.S("leaf", "c", yang.S("type", "string")), yang.S("unique", "a"), yang.S("unique", "b"), yang.S("unique", "b c")),
 		yang.S("container", "dv-cont", yang.S("leaf", "inner", yang.S("type", "string"), yang.S("mandatory", "true"))),
 	)
 	m.Add(yang.S("rpc", "dv-rpc", c14Input(yang.S("leaf", "x", yang.S("type", "string")))),
@@ -769,6 +770,13 @@ func c14GenC(r *core.Rng, idx int) c14Case {
 		{target: "dv-leaf", kind: "delete", props: []*yang.Stmt{yang.S("default", "5")}, what: "delete default", edit: func(t, p *yang.Stmt) { del(t, "default", "5") }},
 		{target: "dv-leaf", kind: "delete", props: []*yang.Stmt{yang.S("must", "1 = 1")}, what: "delete must", edit: func(t, p *yang.Stmt) { del(t, "must", "1 = 1") }},
 		{target: "dv-list", kind: "delete", props: []*yang.Stmt{yang.S("unique", "a")}, what: "delete unique", edit: func(t, p *yang.Stmt) { del(t, "unique", "a") }},
+		// the statement named is the one that goes, wherever it stands among its like
+		{target: "dv-leaf", kind: "delete", props: []*yang.Stmt{yang.S("must", "3 = 3")}, what: "delete the second of three musts", edit: func(t, p *yang.Stmt) { del(t, "must", "3 = 3") }},
+		{target: "dv-leaf", kind: "delete", props: []*yang.Stmt{yang.S("must", "4 = 4")}, what: "delete the last of three musts", edit: func(t, p *yang.Stmt) { del(t, "must", "4 = 4") }},
+		{target: "dv-leaf", kind: "delete", props: []*yang.Stmt{yang.S("must", "4 = 4"), yang.S("must", "1 = 1")}, what: "delete the last and the first of three musts",
+			edit: func(t, p *yang.Stmt) { del(t, "must", "4 = 4"); del(t, "must", "1 = 1") }},
+		{target: "dv-list", kind: "delete", props: []*yang.Stmt{yang.S("unique", "b")}, what: "delete the second of three uniques", edit: func(t, p *yang.Stmt) { del(t, "unique", "b") }},
+		{target: "dv-list", kind: "delete", props: []*yang.Stmt{yang.S("unique", "b c")}, what: "delete the last of three uniques", edit: func(t, p *yang.Stmt) { del(t, "unique", "b c") }},
 		// rpcs and notifications, and nodes inside them, are targets like any other
 		{target: "dv-rpc", abs: true, kind: "not-supported", what: "not-supported rpc", edit: func(t, p *yang.Stmt) { p.Remove(t) }},
 		{target: "dv-notif", abs: true, kind: "not-supported", what: "not-supported notification", edit: func(t, p *yang.Stmt) { p.Remove(t) }},
